@@ -1430,7 +1430,8 @@ class ApiFn(Fn):
             p = strip(n["inner"][0])
             if p.get("kind") == "DeclRefExpr" and self.lval_name(p) in self.idx_ptrs:
                 nm = self.lval_name(p)
-                return "(@nth Z (Z.to_nat %s) %s 0)" % (self.E(p), self.idx_ptrs[nm])
+                self.needs_sgn = True     # the value of a plain char: the byte, or byte - 256 where char is signed
+                return "(rdb sgn (@nth Z (Z.to_nat %s) %s 0))" % (self.E(p), self.idx_ptrs[nm])
         if k == "BinaryOperator" and n.get("opcode") == "-":
             a_, b_ = strip(n["inner"][0]), strip(n["inner"][1])
             if a_.get("kind") == "DeclRefExpr" and self.lval_name(a_) in self.idx_ptrs and \
@@ -2082,6 +2083,9 @@ Fixpoint cstr (s : list Z) : list Z :=
   | b :: t => if b =? 0 then [] else b :: cstr t
   end.
 Definition cstr_at (buf : list Z) (off : Z) : list Z := cstr (skipn (Z.to_nat off) buf).
+
+(* the value of a plain `char` holding byte b (0..255): b, or b - 256 where plain char is signed *)
+Definition rdb (sgn : bool) (b : Z) : Z := if sgn && (128 <=? b) then b - 256 else b.
 """
 
 DATA = [("%s_birthday", "Z"), ("%s_features", "Z"), ("%s_secret", "list Z"), ("%s_checksum", "Z")]
@@ -2182,6 +2186,12 @@ def api_main(repo, out, base_info):
                 f.idx_spec = IDX_MODE[fn]
             text = f.translate(params, outs, rty)
             parts.append(text)
+            cps_ = [(p["name"], (p.get("type", {}).get("desugaredQualType") or p.get("type", {}).get("qualType", "")))
+                    for p in node["inner"] if p.get("kind") == "ParmVarDecl"]
+            fty_ = node.get("type", {}).get("qualType", "")
+            parts.append("(* the C types (typedefs resolved) of the result and of the parameters of %s *)\n"
+                         "Definition ctypes_%s : list string := [%s]." % (fn, fn, "; ".join(
+                             '"%s"%%string' % x.replace('"', "'") for x in [fty_.split("(")[0].strip()] + ["%s : %s" % (a, b) for a, b in cps_])))
             parts.append("(* the automatic arrays and structs %s declares (those of the functions inlined into it included) *)\n"
                          "Definition locals_%s : list string := [%s]." % (fn, fn, "; ".join('"%s"%%string' % x for x in f.locals)))
             register_sig(repo, src, fn, f, params, outs, gl, rty)
